@@ -4,6 +4,7 @@ import (
 	"fmt"
 	"go/ast"
 	"go/token"
+	"go/types"
 	"strings"
 )
 
@@ -27,6 +28,48 @@ func findVarValue(p pkgT, name string) ast.Expr {
 	return nil
 }
 
+// findMapVar: the value of the one package-level variable whose type is a map from a type named `key` to a type
+// named `val` (found by type, so a renamed table is still the same table)
+func findMapVar(p pkgT, key, val string) ast.Expr {
+	name := func(t types.Type) string {
+		switch x := t.(type) {
+		case *types.Named:
+			return x.Obj().Name()
+		case *types.Basic:
+			return x.Name()
+		}
+		return ""
+	}
+	var found []ast.Expr
+	for _, f := range p.Syntax {
+		for _, d := range f.Decls {
+			gd, ok := d.(*ast.GenDecl)
+			if !ok || gd.Tok != token.VAR {
+				continue
+			}
+			for _, sp := range gd.Specs {
+				vs := sp.(*ast.ValueSpec)
+				for i, n := range vs.Names {
+					if i >= len(vs.Values) {
+						continue
+					}
+					obj := p.TypesInfo.ObjectOf(n)
+					if obj == nil {
+						continue
+					}
+					if m, ok := obj.Type().Underlying().(*types.Map); ok && name(m.Key()) == key && name(m.Elem()) == val {
+						found = append(found, vs.Values[i])
+					}
+				}
+			}
+		}
+	}
+	if len(found) != 1 {
+		return nil
+	}
+	return found[0]
+}
+
 func genNyctTables(c *ctx) (string, error) {
 	pa := c.pkg("/extensions/nyctalerts")
 	pt := c.pkg("/extensions/nycttrips")
@@ -35,7 +78,7 @@ func genNyctTables(c *ctx) (string, error) {
 	sb.WriteString("namespace Gtfs.Gen.NyctTables\n\n")
 
 	// priority -> effect
-	lit, ok := findVarValue(pa, "priortyToEffect").(*ast.CompositeLit)
+	lit, ok := findMapVar(pa, "MercuryEntitySelector_Priority", "Alert_Effect").(*ast.CompositeLit)
 	if !ok {
 		return "", fmt.Errorf("priortyToEffect is not a map literal")
 	}
@@ -51,7 +94,7 @@ func genNyctTables(c *ctx) (string, error) {
 	}
 	fmt.Fprintf(&sb, "/-- `priortyToEffect`: Mercury priority number ↦ GTFS-realtime effect number -/\ndef priorityToEffect : List (Int × Int) := [%s]\n\n", strings.Join(ents, ", "))
 
-	lit, ok = findVarValue(pa, "timetabledNoServicePriorities").(*ast.CompositeLit)
+	lit, ok = findMapVar(pa, "MercuryEntitySelector_Priority", "bool").(*ast.CompositeLit)
 	if !ok {
 		return "", fmt.Errorf("timetabledNoServicePriorities is not a map literal")
 	}
